@@ -47,6 +47,14 @@ Theorem C20_flusher_not_blocked_after_request : forall cap s,
   req s = true -> fp s <> Done -> exists l s', flusher_label l /\ step cap s l = Some s'.
 Proof. exact FlushProofs.flusher_not_blocked_after_request. Qed.
 
+(* FlushLogger is one-shot (known finding "second flush"): an entry logged after the acknowledged flush is never
+   written, whatever follows — the flusher goroutine has returned; FlushProofs.logged_after_ack_witness is a
+   concrete schedule *)
+Theorem C20_logged_after_ack_never_written : forall cap l1 l3 s,
+  run cap init (l1 ++ FlushRet true :: l3) = Some s ->
+  forall e, In e (calls_of l3) -> ~ In e (writes_of (l1 ++ FlushRet true :: l3)).
+Proof. exact FlushProofs.logged_after_ack_never_written. Qed.
+
 (* the tie: every visible trace of the model, under every schedule, is accepted by the specification machine
    that validates the implementation's recorded traces (so a rejected trace is not a behaviour of the model) *)
 Theorem C20_trace_validation_sound : forall cap ls s, run cap init ls = Some s -> accepts (visible ls) = true.
@@ -66,3 +74,4 @@ Print Assumptions C20_conservation.
 Print Assumptions C20_flusher_not_blocked_after_request.
 Print Assumptions C20_trace_validation_sound.
 Print Assumptions C20_tree_constants_in_range.
+Print Assumptions C20_logged_after_ack_never_written.
